@@ -11,7 +11,8 @@ RULE = ('line/quadratic/cubic segments from families random, cusped (control poi
         'collinear self-retracing, well-parametrised; x split parameters x rotations/translations/scale factors; reference = adaptive '
         'Gauss-Kronrod split at the zeros of the hodograph; non-trivial = true length > 1e-6')
 NOT_PROVED = ['length_accuracy: |length - true arc length| <= 2% (0.01% when well parametrised) -- a quadrature error bound for the non-smooth integrand |B\'|; measured only',
-              'additivity under splitting of curve lengths within that tolerance (consequence of the above); measured only']
+              'additivity under splitting of curve lengths within that tolerance (consequence of the above); measured only',
+              'a line\'s length in floating point: PROVED (Proofs/C15float.v): |binary64 length - Euclidean length| <= (3 + 1/32)*2^-53*length + 2^-535 for finite coordinates up to 2^500']
 ASSUMPTIONS = ['reference arc length by adaptive Gauss-Kronrod (tolerance 1e-11) is the truth']
 HAND_FINGERPRINTS = [('path/__init__.py', 'BezierPath.length')]
 P = Point
